@@ -63,14 +63,43 @@ func genGetSnap(seed uint64, prop string) *Scenario {
 			&spb.AFTOperation{Id: g.id(), NetworkInstance: ni, Op: spb.AFTOperation_ADD, Entry: &spb.AFTOperation_NextHopGroup{NextHopGroup: &aftpb.Afts_NextHopGroupKey{Id: grp, NextHopGroup: &aftpb.Afts_NextHopGroup{NextHop: []*aftpb.Afts_NextHopGroup_NextHopKey{{Index: nh, NextHop: &aftpb.Afts_NextHopGroup_NextHop{Weight: u(g.mark())}}}}}}},
 			top)
 	}
+	// a quarter of the runs read a LARGE table (a Get that pages through its tables, or re-walks them, meets a
+	// modification in the middle): 34-73 unreferenced next-hops besides the chains
+	big := r.IntN(4) == 0
+	if big {
+		n := 34 + r.IntN(40)
+		for i := 0; i < n; i++ {
+			prep = append(prep, &spb.AFTOperation{Id: g.id(), NetworkInstance: ni, Op: spb.AFTOperation_ADD, Entry: &spb.AFTOperation_NextHop{NextHop: &aftpb.Afts_NextHopKey{
+				Index: uint64(100 + i), NextHop: &aftpb.Afts_NextHop{IpAddress: sv(fmt.Sprintf("198.18.7.%d", i))}}}})
+		}
+	}
 	sc.Steps = append(sc.Steps, g.batchStep(0, prep))
 	gs := &GetSpec{AFT: int32([]int{1, 1, 1, 2, 3, 4, 5, 6}[r.IntN(8)])}
+	if big {
+		gs.AFT = int32([]int{1, 6}[r.IntN(2)])
+	}
 	if r.IntN(3) == 0 {
 		gs.All = true
 	} else {
 		gs.NI = ni
 	}
 	sc.Steps = append(sc.Steps, Step{T: "snapget", Get: gs, A: r.IntN(8), B: r.IntN(3)})
+	if big {
+		// while the reader stalls: a key that sorts before most of the table goes away, another one appears
+		var ws []*spb.AFTOperation
+		if r.IntN(3) != 0 {
+			ws = append(ws, &spb.AFTOperation{Id: g.id(), NetworkInstance: ni, Op: spb.AFTOperation_DELETE, Entry: &spb.AFTOperation_NextHop{NextHop: &aftpb.Afts_NextHopKey{Index: uint64(100 + r.IntN(3))}}})
+		}
+		if r.IntN(3) != 0 {
+			ws = append(ws, &spb.AFTOperation{Id: g.id(), NetworkInstance: ni, Op: spb.AFTOperation_ADD, Entry: &spb.AFTOperation_NextHop{NextHop: &aftpb.Afts_NextHopKey{
+				Index: uint64(50 + r.IntN(3)), NextHop: &aftpb.Afts_NextHop{IpAddress: sv("198.18.8.1")}}}})
+		}
+		for _, o := range ws {
+			st := g.batchStep(0, []*spb.AFTOperation{o})
+			st.T = "w-ops"
+			sc.Steps = append(sc.Steps, st)
+		}
+	}
 	// the writer takes chains apart top-down (every operation is answered at once) and may put them back
 	for _, c := range chains {
 		if r.IntN(4) == 0 {
